@@ -549,6 +549,18 @@ func runC04(cx *Ctx, r *Report) {
 		r.check(ok, "time-window", "BeginBlock", pos, "each asset's window advances by exactly (block time − stored previous block time), independently of the other assets, under TimeLimited ∧ old+Δ < TimePeriod; otherwise it is reset together with the time-limited supply; the reference time then moves to this block", "time window of the time-based limit: "+why)
 	}
 	cx.lostUpdateRule(r, []string{"htlc"}, 8)
+	{
+		walks := map[string]*c13Walk{}
+		cx.closeDequeuesRule(r, func(e Entry) *c13Walk {
+			k := entryKey(&e)
+			if walks[k] == nil {
+				ee := e
+				walks[k] = cx.c13WalkEntry(&ee, r)
+			}
+			return walks[k]
+		})
+		r.requireCount("close-dequeues", 1)
+	}
 	r.requireCount("time-window", 1)
 	r.requireCount("double-entry", 7)
 	r.requireCount("limit-guard", 9)
